@@ -22,12 +22,28 @@ def rule_sticky_scans(col, facts):
     adt = facts.adts[PF + "number::Number"][0]["fields"]
     ii, fi = adt.index("integer"), adt.index("fraction")
     scans = {"integer": set(), "fraction": set()}
+    # the truncation tests `count == max_digits` (max_digits is the second parameter) and their true edges
+    trunc = []
+    for i, b in enumerate(f.blocks):
+        t = b["t"]
+        if t["k"] == "switch" and f.live(i):
+            e = strip_casts(op_expr(f, t["d"]))
+            if e[0] == "bin" and e[1] == "Eq" and any(strip_casts(x)[:2] == ("arg", 2) for x in (e[2], e[3])):
+                true_t = [tg for v, tg in t["v"] if v == 1] or [t["else"]]
+                trunc.append((i, true_t[0]))
     for bb, c, a, d, t in f.calls():
         cn = callee_name(c)
-        if "round_up_nonzero" in f.macros(f.blocks[bb]["ts"]) and cn.endswith(("Iterator::next", "Iter::peek_u64", "IntoIterator::into_iter")):
-            src = number_field_of(f, op_expr(f, a[0]))
-            sp = f.span(f.blocks[bb]["ts"])
-            site = (sp.get("cl"),)
+        # a sticky scan: under a truncation test, the rest of a digit iterator of Number.integer / Number.fraction is
+        # consumed - by the scanning loop itself (Iterator::next / peek_u64 of round_up_nonzero!) or by handing the
+        # iterator to a helper
+        under = [i for i, tt in trunc if f.dominates(tt, bb)]
+        if not under and "round_up_nonzero" not in f.macros(f.blocks[bb]["ts"]):
+            continue
+        if last_seg(cn) in ("integer_iter", "fraction_iter", "bytes", "clone", "is_contiguous", "current_count", "cursor"):
+            continue
+        for x in a[:2]:
+            src = number_field_of(f, op_expr(f, x))
+            site = (under[-1] if under else f.span(f.blocks[bb]["ts"]).get("cl"),)
             if src == ii:
                 scans["integer"].add(site)
             elif src == fi:
